@@ -119,6 +119,12 @@ def exact(x):
         return ExactSeq([exact(v) for v in x]) if all(_isnum(v) for v in x) else x
     if isinstance(x, tuple):
         return tuple(exact(v) for v in x)
+    try:
+        import pandas as _pd
+        if type(x) is _pd.Series:
+            return PosSeries(x)      # contract clauses address sequence elements by POSITION, whatever the index labels
+    except ImportError:
+        pass
     return x
 
 
@@ -755,7 +761,20 @@ def class_name(x):
 
 
 def same_object(a, b):
-    return a is b
+    """identity; in the executable reading numbers / numeric vectors are converted to exact values, so equal content stands in for
+    identity where the two sides are no longer the same Python object"""
+    if a is b:
+        return True
+    import numpy as _np
+    import pandas as _pd
+    try:
+        if isinstance(a, _pd.DataFrame) or isinstance(b, _pd.DataFrame):
+            return isinstance(a, _pd.DataFrame) and isinstance(b, _pd.DataFrame) and a.equals(b)
+        if isinstance(a, (list, tuple, _np.ndarray)) and isinstance(b, (list, tuple, _np.ndarray)):
+            return len(a) == len(b) and all(x == y for x, y in zip(list(a), list(b)))
+    except Exception:
+        return False
+    return False
 
 
 def random_subsample(src, m):
@@ -1034,3 +1053,26 @@ def regex_prefix(seqs, i):
         if sum(1 for s in seqs if s[k] not in "-.") != n:
             out += "?"
     return out
+
+
+def is_new_object(a, b):
+    return a is not b
+
+
+try:
+    import pandas as _pd_mod
+
+    class PosSeries(_pd_mod.Series):
+        """the same Series, for the executable reading of contract clauses: an integer subscript is a POSITION"""
+
+        @property
+        def _constructor(self):
+            return PosSeries
+
+        def __getitem__(self, k):
+            import numpy as _np
+            if isinstance(k, (int, _np.integer, Fraction)) and not isinstance(k, bool):
+                return self.iloc[int(k)]
+            return super().__getitem__(k)
+except ImportError:      # pragma: no cover
+    PosSeries = None
